@@ -70,6 +70,6 @@ RunResult run_plan(const Plan &plan, const ExecCfg &cfg);
 // pieces reused by the specialised modes
 std::string classify_current_exception(std::string *what = nullptr); // call inside catch(...)
 std::vector<uint8_t> read_real_file(const std::string &path);
-std::string check_c05(const Snapshot &s, bool i5, std::string *facet);
+std::string check_c05(const Snapshot &s, bool i5, std::string *facet, size_t *frameIdx = nullptr);
 
 } // namespace sim
